@@ -445,7 +445,13 @@ type tableInitialization struct {
 
 	// pending initializers.
 	pending []string
+
+	// tokens identify the registrations behind [pending] (same order).
+	tokens []*initToken
 }
+
+// initToken is the identity of one RegisterInitializer() call.
+type initToken struct{ name string }
 
 // tableEntry contains the table state. The database is a slice of
 // these table entries.
